@@ -625,6 +625,12 @@ func checkTransformReqs(p *core.Prog, r *core.Result, tr *ssa.Function) {
 		r.Check(okUnique, "R11.3", fmt.Sprintf("internal/mvs.transformReqs#fresh-name-unique-%d", i+1), p.InstrPos(mu), "a fresh name is stored only after a lookup of that same name in the new requirement set failed", "a fresh requirement name can overwrite an entry that already uses it")
 		// fresh names only for projects without existing names
 		okSkip := p.FactsAt(mu).Find(func(c ssa.Value, val bool) bool {
+			// `names, ok := oldProjects[path]; !ok` is equivalent: entries are only ever created by appending a name
+			if e, isE := c.(*ssa.Extract); isE && e.Index == 1 && !val {
+				if lk, isLk := e.Tuple.(*ssa.Lookup); isLk && lk.X == oldProjects {
+					return true
+				}
+			}
 			b, ok := c.(*ssa.BinOp)
 			if !ok {
 				return false
